@@ -144,8 +144,12 @@ func (o *Out) Emit(op, obs string) {
 		panic("newline in op/obs: " + op + " / " + obs)
 	}
 	o.seq = append(o.seq, op)
-	fmt.Fprintln(o.ops, op)
-	fmt.Fprintln(o.impl, obs)
+	if _, err := fmt.Fprintln(o.ops, op); err != nil {
+		panic("hx: cannot write ops.txt (disk full?): " + err.Error())
+	}
+	if _, err := fmt.Fprintln(o.impl, obs); err != nil {
+		panic("hx: cannot write impl.txt (disk full?): " + err.Error())
+	}
 	o.Stats.Evaluations++
 	if len(o.Stats.Samples) < 6 || (o.Stats.Evaluations%997 == 0 && len(o.Stats.Samples) < 12) {
 		o.Stats.Samples = append(o.Stats.Samples, op+"  =>  "+obs)
@@ -206,8 +210,12 @@ func (o *Out) ViolateWith(desc string, replay []string) {
 }
 
 func (o *Out) Close(rule string) {
-	o.ops.Flush()
-	o.impl.Flush()
+	if err := o.ops.Flush(); err != nil {
+		panic("hx: cannot flush ops.txt: " + err.Error())
+	}
+	if err := o.impl.Flush(); err != nil {
+		panic("hx: cannot flush impl.txt: " + err.Error())
+	}
 	o.fo.Close()
 	o.fi.Close()
 	o.Stats.Rule = rule
